@@ -209,7 +209,7 @@ def get_inwards_mask(
     while indices:
         if not any_connected:
             free_edges = set()
-            is_inwards = is_facet_inwards(msh[indices[0]], msh[indices])
+            is_inwards = is_facet_inwards(msh[indices[0]], msh)
             mask[indices] = is_inwards
         for tri_ind in indices:
             tri = triangles[tri_ind]
